@@ -11,6 +11,10 @@ use vcore::{Cx, SUB_SETUP, Tier, Value, json};
 pub struct R8 {
     pub ty: &'static str,
     pub op: &'static str,
+    /// false: the computed value is passed to a widening host function;
+    /// true: it is RETURNED to Rust, which widens it (the caller of an
+    /// `extern "C" fn -> u8` may equally assume an extended register)
+    pub ret: bool,
 }
 
 pub const ARITH: [&str; 5] = ["id", "+", "-", "*", "neg"];
@@ -24,15 +28,22 @@ pub fn units() -> Vec<R8> {
             if op == "neg" && ty.starts_with('u') {
                 continue;
             }
-            v.push(R8 { ty, op });
+            v.push(R8 { ty, op, ret: false });
         }
         for op in CMP {
-            v.push(R8 { ty, op });
+            v.push(R8 { ty, op, ret: false });
         }
     }
     // bool computed by logic operators on bools
     for op in ["&&", "||", "not"] {
-        v.push(R8 { ty: "bool", op });
+        v.push(R8 { ty: "bool", op, ret: false });
+    }
+    // the same computed values returned to Rust instead
+    for ty in ["u8", "i8", "u16", "i16"] {
+        for op in ["+", "-", "*"] {
+            v.push(R8 { ty, op, ret: true });
+        }
+        v.push(R8 { ty, op: "<", ret: true });
     }
     v
 }
@@ -70,6 +81,13 @@ pub fn domains(u: &R8, t: Tier) -> (Vec<i128>, Vec<i128>) {
         vec![0]
     } else if b == 8 {
         full
+    } else if t == Tier::Thorough {
+        // boundary values plus every 61st value of the type
+        let mut v = boundary(u.ty);
+        v.extend(full.iter().copied().filter(|x| x.rem_euclid(61) == 7));
+        v.sort();
+        v.dedup();
+        v
     } else {
         boundary(u.ty)
     };
@@ -91,6 +109,10 @@ pub fn expr(u: &R8) -> String {
 
 pub fn script(u: &R8) -> String {
     let ty = u.ty;
+    if u.ret {
+        let ret = if is_cmp(u.op) { "bool" } else { ty };
+        return format!("fn f(a: {ty}, b: {ty}) -> {ret} {{\n    {}\n}}\n", expr(u));
+    }
     if is_cmp(u.op) {
         format!("fn f(a: {ty}, b: {ty}) -> u64 {{\n    wide_bool({})\n}}\n", expr(u))
     } else {
@@ -126,11 +148,15 @@ pub fn expected(u: &R8, a: i128, b: i128) -> i128 {
 fn case(u: &R8, a: i128, b: i128) -> Value {
     json!({"route": "r8", "ty": u.ty, "op": u.op, "small_int": true, "a": a.to_string(), "b": b.to_string(),
            "expr": expr(u), "widened_type_bits": if is_cmp(u.op) { 8 } else { bits(u.ty) },
-           "script": script(u), "host_fn": if is_cmp(u.op) { "wide_bool".to_string() } else { format!("wide_{}", u.ty) }})
+           "script": script(u), "returned_to_rust": u.ret,
+           "host_fn": if u.ret { "-".to_string() } else if is_cmp(u.op) { "wide_bool".to_string() } else { format!("wide_{}", u.ty) }})
 }
 
 macro_rules! pairs {
-    ($cx:expr, $pkg:expr, $u:expr, $t:ty, $r:ty, $da:expr, $db:expr, $conv:expr) => {{
+    ($cx:expr, $pkg:expr, $u:expr, $t:ty, $r:ty, $da:expr, $db:expr, $conv:expr) => {
+        pairs!($cx, $pkg, $u, $t, $r, $da, $db, $conv, |x: $r| x as i128)
+    };
+    ($cx:expr, $pkg:expr, $u:expr, $t:ty, $r:ty, $da:expr, $db:expr, $conv:expr, $widen:expr) => {{
         match $pkg.get_function::<fn($t, $t) -> $r>("f") {
             Err(e) => $cx.violation("get_function", SUB_SETUP, case($u, 0, 0), json!("Ok"), json!(e.to_string())),
             Ok(f) => {
@@ -144,7 +170,8 @@ macro_rules! pairs {
                             continue;
                         }
                         let conv = $conv;
-                        let got = f.call_tuple(&mut NoCtx, (conv(*a), conv(*b))) as i128;
+                        let widen = $widen;
+                        let got: i128 = widen(f.call_tuple(&mut NoCtx, (conv(*a), conv(*b))));
                         let want = expected($u, *a, *b);
                         n += 1;
                         h = vcore::util::mix(h, got as u64);
@@ -192,6 +219,22 @@ pub fn run(u: &R8, cx: &mut Cx) {
     let (da, db) = domains(u, cx.cfg.tier);
     cx.sample(json!({"route": "r8", "script": src, "pairs": da.len() * db.len()}));
     let cmp = is_cmp(u.op);
+    if u.ret {
+        match (u.ty, cmp) {
+            ("u8", false) => pairs!(cx, pkg, u, u8, u8, da, db, |x: i128| x as u8, |x: u8| x as u64 as i128),
+            ("i8", false) => pairs!(cx, pkg, u, i8, i8, da, db, |x: i128| x as i8, |x: i8| x as i64 as i128),
+            ("u16", false) => pairs!(cx, pkg, u, u16, u16, da, db, |x: i128| x as u16, |x: u16| x as u64 as i128),
+            ("i16", false) => pairs!(cx, pkg, u, i16, i16, da, db, |x: i128| x as i16, |x: i16| x as i64 as i128),
+            ("u8", true) => pairs!(cx, pkg, u, u8, bool, da, db, |x: i128| x as u8, |x: bool| x as u64 as i128),
+            ("i8", true) => pairs!(cx, pkg, u, i8, bool, da, db, |x: i128| x as i8, |x: bool| x as u64 as i128),
+            ("u16", true) => pairs!(cx, pkg, u, u16, bool, da, db, |x: i128| x as u16, |x: bool| x as u64 as i128),
+            ("i16", true) => pairs!(cx, pkg, u, i16, bool, da, db, |x: i128| x as i16, |x: bool| x as u64 as i128),
+            _ => unreachable!(),
+        }
+        drop(pkg);
+        drop(rt);
+        return;
+    }
     match (u.ty, cmp) {
         ("u8", false) => pairs!(cx, pkg, u, u8, u64, da, db, |x: i128| x as u8),
         ("u8", true) => pairs!(cx, pkg, u, u8, u64, da, db, |x: i128| x as u8),
@@ -216,4 +259,40 @@ pub fn describe(u: &R8, t: Tier, s: u64) -> Value {
     let a = da.get((s >> 32) as usize).copied().unwrap_or(0);
     let b = db.get((s & 0xffff_ffff) as usize).copied().unwrap_or(0);
     case(u, a, b)
+}
+
+/// self-test of the oracle: `expected` agrees with Rust's own wrapping
+/// arithmetic on every 8-bit pair and on the 16-bit boundary pairs
+pub fn lint() -> Result<(), String> {
+    for u in units() {
+        if u.ty == "bool" {
+            continue;
+        }
+        let (da, db) = domains(&u, Tier::Quick);
+        for &a in &da {
+            for &b in &db {
+                let native: i128 = match (u.ty, u.op) {
+                    ("u8", "+") => (a as u8).wrapping_add(b as u8) as i128,
+                    ("u8", "-") => (a as u8).wrapping_sub(b as u8) as i128,
+                    ("u8", "*") => (a as u8).wrapping_mul(b as u8) as i128,
+                    ("i8", "+") => (a as i8).wrapping_add(b as i8) as i128,
+                    ("i8", "-") => (a as i8).wrapping_sub(b as i8) as i128,
+                    ("i8", "*") => (a as i8).wrapping_mul(b as i8) as i128,
+                    ("i8", "neg") => (a as i8).wrapping_neg() as i128,
+                    ("u16", "+") => (a as u16).wrapping_add(b as u16) as i128,
+                    ("u16", "-") => (a as u16).wrapping_sub(b as u16) as i128,
+                    ("u16", "*") => (a as u16).wrapping_mul(b as u16) as i128,
+                    ("i16", "+") => (a as i16).wrapping_add(b as i16) as i128,
+                    ("i16", "-") => (a as i16).wrapping_sub(b as i16) as i128,
+                    ("i16", "*") => (a as i16).wrapping_mul(b as i16) as i128,
+                    ("i16", "neg") => (a as i16).wrapping_neg() as i128,
+                    _ => continue,
+                };
+                if native != expected(&u, a, b) {
+                    return Err(format!("r8 oracle: {} {} on ({a}, {b}): {} vs native {native}", u.ty, u.op, expected(&u, a, b)));
+                }
+            }
+        }
+    }
+    Ok(())
 }
